@@ -2,7 +2,7 @@
 Driver of the C04 section of the oracle.
 
   @ C04 slice <cmp> v…       Slice[int] from FromSlice(v…)      ops: push pop peek len rm fix set setfix popall
-  @ C04 heap <cmp>           two Heap[int] (A, B) from New(0,·) ops: init push pushe pop peek len rm fix setv setfix popall
+  @ C04 heap <cmp>           two Heap[int] (A, B) from New(0,·) ops: init initc push pushe pop peek len rm fix setv setfix popall
   @ C04 generic <cmp> v…     recording container holding v…     ops: init push pop rm fix set
 
 After every operation the whole observable state is printed: `Slice.Values` / `Len()` of both
@@ -96,12 +96,16 @@ def showRet : HRet → String
   | .vals xs => showInts xs
 
 /-- One line → one client call (`HOp`), or the bare field write `setv e v` (`e.Value = v`
-without a `Fix`; the generator follows it by `fix` on the owner). -/
-def parseHOp (m : HMem) (ts : List String) : Option HOp :=
+without a `Fix`; the generator follows it by `fix` on the owner). `init` passes the comparator of
+the header again, `initc` another one. -/
+def parseHOp (cmp : Int → Int → Bool) (m : HMem) (ts : List String) : Option HOp :=
   match ts with
   | "init" :: h :: vs => do
     let h ← parseHeap h; let vs ← ints? vs
-    pure (.init h vs)
+    pure (.init h cmp vs)
+  | "initc" :: h :: c :: vs => do
+    let h ← parseHeap h; let c ← cmpOf c; let vs ← ints? vs
+    pure (.init h c vs)
   | ["push", h, x] => do
     let h ← parseHeap h; let x ← x.toInt?
     pure (.push h x)
@@ -123,22 +127,22 @@ def parseHOp (m : HMem) (ts : List String) : Option HOp :=
   | ["popall", h] => do pure (.popAll (← parseHeap h))
   | _ => none
 
-def heapStep (cmp : Int → Int → Bool) (m : HMem) (ts : List String) :
-    Option (Option (HMem × String)) :=
+def heapStep (cmp : Int → Int → Bool) (st : HState) (ts : List String) :
+    Option (Option (HState × String)) :=
   match ts with
   | ["setv", e, v] => do
-    let e ← parseElem m e; let v ← v.toInt?
-    let m1 := { m with val := m.val.set e v }
-    pure (some (m1, s!"ok | {m1.dump}"))
+    let e ← parseElem st.m e; let v ← v.toInt?
+    let m1 : HMem := { st.m with val := st.m.val.set e v }
+    pure (some ({ st with m := m1 }, s!"ok | {m1.dump}"))
   | _ => do
-    let op ← parseHOp m ts
-    pure ((stepH cmp m op).map fun (m1, r) => (m1, s!"{showRet r} | {m1.dump}"))
+    let op ← parseHOp cmp st.m ts
+    pure ((stepH st op).map fun (st1, r) => (st1, s!"{showRet r} | {st1.m.dump}"))
 
 def runHeap (hdr ops : List String) : List String :=
   match hdr with
   | [c] =>
     match cmpOf c with
-    | some cmp => s!"ok | {HMem.zero.dump}" :: runOps (heapStep cmp) (some HMem.zero) ops
+    | some cmp => s!"ok | {HMem.zero.dump}" :: runOps (heapStep cmp) (some (HState.zero cmp)) ops
     | none => bad ops
   | _ => bad ops
 
